@@ -122,7 +122,7 @@ Subst5 == {"W", "D", "N", "M", "E"}
 C5(w, d, n, m, e) == [W |-> w, D |-> d, N |-> n, M |-> m, E |-> e]
 SOL_Names == {"v", "v2", "vs", "vr", "z", "k1", "k2", "k3", "o"}
 SOL_Shape == [n \in SOL_Names |-> <<0, 0>>]
-SOL_Init == {[v  |-> Cont(Inf, C5(I(16), I(1), Zero, Zero, Zero)),    \* solvent container with a bystander (D)
+SOL_Init == {[v  |-> Cont(Inf, C5(I(16), I(1), Zero, Zero, I(1))),    \* solvent container with bystanders: a liquid (D) and an enzyme (E)
               v2 |-> Cont(Inf, C5(I(12), Zero, Zero, I(1), Zero)),    \* solvent container with a dissolved solid (M)
               vs |-> Cont(Inf, C5(I(6), Zero, R(1, 2), Zero, Zero)),  \* diluent that already holds some solute (N)
               vr |-> Cont(Inf, C5(I(4), Zero, I(2), Zero, Zero)),     \* "diluent" richer in solute than the stocks
@@ -136,7 +136,7 @@ DenUnits == {"mol", "g", "L"}
 QtyUnits(s) == IF IsEnzyme(s) THEN {"U", "g", "L"} ELSE {"mol", "g", "L"}
 \* a solvent container never holds one of the solutes (what "quantity of solute" means would be ambiguous)
 SolSolvents(sols) == (({"W", "D", "v", "v2", "z"} \ {sols[i] : i \in DOMAIN sols})
-                       \ (IF \E i \in DOMAIN sols : sols[i] = "D" THEN {"v"} ELSE {}))
+                       \ (IF \E i \in DOMAIN sols : sols[i] \in {"D", "E"} THEN {"v"} ELSE {}))
                        \ (IF \E i \in DOMAIN sols : sols[i] = "M" THEN {"v2"} ELSE {})
 SCk(sols, solvent, xs, xsolv, given, nu, du, qu, tu, skew) ==
   [n |-> "o", solutes |-> sols, solvent |-> solvent, xs |-> xs, xsolv |-> xsolv, given |-> given,
